@@ -281,6 +281,7 @@ func c10Rows(r *Run, n int) {
 		var n1, n2 Row
 		var modify Row
 		var failure string
+		var twoStepGot, twoStepWant string
 		func() {
 			defer func() {
 				if p := recover(); p != nil {
@@ -336,16 +337,54 @@ func c10Rows(r *Run, n int) {
 						upd2[c.Name] = nativeToOvsValue(genValue(r.Rng, c.Type))
 					}
 				}
-				_ = u1.AddOperation(db.Model, "T", uuid, m1, RowOperationJ{Op: "update", Row: upd2}.toOvs("T"))
+				err2 := u1.AddOperation(db.Model, "T", uuid, m1, RowOperationJ{Op: "update", Row: upd2}.toOvs("T"))
 				if _, now := db.RowOf("T", m1); rowExact(now) != rowExact(before) {
 					cs["second_update"] = upd2
 					failure = "PURITY a second AddOperation(update) altered the model GetModel had handed out for the first: " + rowExact(now) + " (was " + rowExact(before) + ")"
 					return
 				}
+				// the difference of both updates together, applied to the model before the first, gives the model
+				// after the second
+				if err2 == nil {
+					c := Row{}
+					for k, v := range b {
+						c[k] = v
+					}
+					for _, col := range t.Cols {
+						if v, ok := upd2[col.Name]; ok {
+							c[col.Name] = ovsToNativeValue(col.Type, v)
+						}
+					}
+					cs["second_update"] = upd2
+					got := a
+					if mu2 := readUpdate(db, &u1, "T", uuid); mu2.RU2 != nil && mu2.RU2.Modify != nil {
+						u3 := updates.ModelUpdates{}
+						mod2 := rowToOvs(mu2.RU2.Modify)
+						if err := u3.AddRowUpdate2(db.Model, "T", uuid, db.NewModel("T", uuid, a), ovsdb.RowUpdate2{Modify: &mod2}); err != nil {
+							failure = "TWOSTEP AddRowUpdate2 of the merged difference: " + err.Error()
+							return
+						}
+						if m3 := readUpdate(db, &u3, "T", uuid); m3.New != nil {
+							got = m3.New.Row
+						}
+						cs["modify"] = mu2.RU2.Modify
+					}
+					r.Count("row-update:two-step")
+					if got.Canon() != c.Canon() {
+						twoStepGot, twoStepWant = got.Canon(), c.Canon()
+						failure = "TWOSTEP"
+						return
+					}
+				}
 			}
 		}()
 		if strings.HasPrefix(failure, "PURITY") {
 			r.Violation("row-update", cs, failure, rowExact(a), true, "computing or applying a difference altered the model it was computed from", "")
+			continue
+		}
+		if failure == "TWOSTEP" {
+			r.Violation("row-update", cs, twoStepGot, twoStepWant, true,
+				"two updates of a row aggregated into one: the merged modify row applied to the model before the first does not give the model after the second", "")
 			continue
 		}
 		if failure != "" {
